@@ -366,6 +366,9 @@ class VN:
                     (isinstance(x, ast.Constant) and x.value is None) or (isinstance(x, ast.Slice) and x.lower is None and x.upper is None and x.step is None)
                     for x in e.slice.elts):
                 return base
+            # x.shape[0] is len(x)
+            if isinstance(e.value, ast.Attribute) and e.value.attr == "shape" and isinstance(e.slice, ast.Constant) and e.slice.value == 0:
+                return Poly.atom(("len", self.expr(e.value.value).key()))
             ik = self.index_key(e.slice)
             c, prim = base.split_const()
             # X[i][s] == X[i, s] when i is an integer position (a variable of a `for i in range(..)` loop): merge the two subscripts
@@ -537,6 +540,24 @@ class VN:
                                   self.expr(axis).key() if axis is not None else None))
             if name in ("float64", "asarray", "array", "float_", "ascontiguousarray") and len(args) == 1 and not (set(kws) - {"dtype"}):
                 return args[0]
+            if name == "where" and len(args) == 3 and not kws:
+                # one spelling of a two-way choice: where(a <= b, X, Y) is where(b < a, Y, X); where(~c, X, Y) is where(c, Y, X); where(a != b, X, Y) is where(a == b, Y, X)
+                c_, x_, y_ = args
+                for _ in range(4):
+                    ck = c_.key()
+                    at = ck[0][0][0][0] if (len(ck) == 1 and ck[0][1] == (1, 1) and len(ck[0][0]) == 1 and ck[0][0][0][1] == 1 and isinstance(ck[0][0][0][0], tuple)) else None
+                    if at is not None and at[0] == "cmp" and at[1] == "LtE":
+                        c_ = Poly.atom(("cmp", "Lt", at[3], at[2]))
+                        x_, y_ = y_, x_
+                    elif at is not None and at[0] == "cmp" and at[1] == "NotEq":
+                        c_ = Poly.atom(("cmp", "Eq", at[2], at[3]))
+                        x_, y_ = y_, x_
+                    elif at is not None and at[0] in ("not", "np.logical_not") and len(at) == 2:
+                        c_ = Poly({mm: Fraction(*cc) for mm, cc in at[1]})
+                        x_, y_ = y_, x_
+                    else:
+                        break
+                args = [c_, x_, y_]
             kk = tuple(sorted((k, self.expr(v).key()) for k, v in kws.items()))
             return Poly.atom(("np." + name,) + tuple(a.key() for a in args) + kk)
         if isinstance(fn, ast.Attribute):
